@@ -479,6 +479,42 @@ def err_detail(ex: BaseException) -> str:
         return "<unprintable>"
 
 
+def same_outcome(a: Any, b: Any) -> bool:
+    """Fingerprint equality, except that two *failures* of which at least one is the interpreter
+    running out of stack count as the same outcome: at the edge of the recursion limit a few
+    frames more or less (the simulator's own callback frames among them) decide whether the
+    RecursionError surfaces as itself or is swallowed and replaced by some library error further
+    up.  A value on one side and a failure on the other is still a difference."""
+    if a == b:
+        return True
+    if not a or not b or a[0] == "value" or b[0] == "value":
+        return False
+    return a[:2] == ["exception", "RecursionError"] or b[:2] == ["exception", "RecursionError"]
+
+
+def _involves_recursion_error(ex: BaseException) -> bool:
+    """Did the interpreter's stack run out somewhere underneath this error?  celpy turns exceptions
+    raised inside an evaluation into CELEvalError(text, exception class, exception args); whether a
+    RecursionError surfaces as itself or wrapped like that depends on the exact frame in which it
+    is raised."""
+    seen = 0
+    cur: Optional[BaseException] = ex
+    while cur is not None and seen < 8:
+        if isinstance(cur, RecursionError):
+            return True
+        for a in getattr(cur, "args", ()) or ():
+            if a is RecursionError or isinstance(a, RecursionError):
+                return True
+            if isinstance(a, str) and "maximum recursion depth" in a:
+                return True
+            if isinstance(a, tuple) and any(isinstance(x, str) and "maximum recursion depth" in x
+                                            for x in a):
+                return True
+        cur = cur.__cause__ or cur.__context__
+        seen += 1
+    return False
+
+
 def outcome(fn: Callable[[], Any], value: bool = True, detail: bool = False) -> Tuple[List[Any], Any]:
     """Run fn; return (fingerprint, value-or-exception).  Fingerprint = [kind, class, canonical];
     with value=False a successful result is fingerprinted as ["value"] only."""
@@ -492,7 +528,8 @@ def outcome(fn: Callable[[], Any], value: bool = True, detail: bool = False) -> 
             text = err_text(ex)
         except RecursionError:
             text = "<unprintable>"
-        if isinstance(ex, RecursionError) or (isinstance(ex, RuntimeError) and "recursion" in text.lower()):
+        if (isinstance(ex, RecursionError) or (isinstance(ex, RuntimeError) and "recursion" in text.lower())
+                or _involves_recursion_error(ex)):
             # where exactly the interpreter's stack runs out (and in which wrapping the error
             # surfaces) depends on a few frames more or less, including the simulator's own:
             # all of it is one outcome
